@@ -36,6 +36,11 @@ def gen_cases(rng, tier, scale):
             seq.append(f'r {e} {x("main")} {D} -1')
         for e in (4, 5, 6, 7):
             seq.append(f'rt {e} {x(t)} {D} -1')
+        # the *_to_write entry points into a writer that takes 1 or 3 bytes per call
+        for e, fa in ((2, -2), (3, -4)):
+            seq.append(f'r {e} {x("main")} {D} {fa}')
+        for e, fa in ((6, -4), (7, -2)):
+            seq.append(f'rt {e} {x(t)} {D} {fa}')
         batch = [f'r 0 {x("main")} {D} -1', f'r 0 {x("other")} {D} -1', f'r 2 {x("main")} {D} -1', f'rt 4 {x(other)} {D} -1',
                  f'r 1 {x("main")} {D} -1', f'r 0 {x("p1")} {D} -1', f'r 3 {x("main")} {D} -1', f'r 0 {x("main")} {D} -1']
         rng.shuffle(batch)
